@@ -107,6 +107,64 @@ pub fn run_case(rep: &mut Report, case: &Case) {
     }
 }
 
+/// Long histories the short hostile cases never reach: a slave port with a non-default Kalman
+/// configuration (estimator boundaries and hysteresis at their extremes) receives hundreds of
+/// exchanges from its parent, spaced from milliseconds to days apart, with offsets that keep
+/// contradicting the estimate. Counters and accumulators that only move once per exchange (wander
+/// score, sample windows) get to their limits here.
+fn long_history(rep: &mut Report, seed: u64, n_syncs: u32) {
+    use crate::drive::{make_slave, Build, Remote};
+    use crate::refcodec::Ts;
+    use statime::filters::KalmanConfiguration;
+    use statime::observability::port::PortState;
+    let replay = json!({"long_history_seed": seed, "syncs": n_syncs});
+    let mut rng = StdRng::seed_from_u64(seed);
+    let mut cfg = KalmanConfiguration::default();
+    cfg.precision_hysteresis = [1u8, 16, 126, 127][rng.gen_range(0..4)];
+    cfg.difference_estimation_boundary = [1usize, 4, 8][rng.gen_range(0..3)];
+    cfg.statistical_estimation_boundary = [2usize, 8, 32][rng.gen_range(0..3)];
+    let mut b = Build::new(6);
+    b.filter = Some(FilterCfg::Kalman(cfg));
+    b.seed = seed;
+    let Ok(built) = b.build() else { return };
+    let mut node = built.node;
+    let mut parent = Remote::new(9, 1);
+    if make_slave(&mut node, 0, &mut parent).is_err() || node.port_state(0) != PortState::Slave {
+        return;
+    }
+    let clock = node.clock.clone();
+    let mut t: u128 = 1_700_000_000 * SEC;
+    let gap_ns: u128 = [1_000_000u128, 1_000_000_000, 3_600_000_000_000, 300_000_000_000_000][rng.gen_range(0..4)];
+    let off_ns: u128 = [0u128, 1_000, 1_000_000, 100_000_000_000][rng.gen_range(0..4)];
+    let regime = format!("hysteresis={} gap={}ns off={}ns", cfg.precision_hysteresis, gap_ns, off_ns);
+    for k in 0..n_syncs {
+        t += gap_ns << 32;
+        clock.lock().unwrap().set_true(t);
+        let rx = clock.lock().unwrap().read();
+        // the master's time keeps running away from / towards the slave's by `off` per exchange
+        let origin_units = rx.saturating_sub(((off_ns * (1 + (k as u128 % 3))) << 32).min(rx));
+        let origin = Ts { secs: ((origin_units >> 32) / 1_000_000_000) as u64, nanos: ((origin_units >> 32) % 1_000_000_000) as u32 };
+        let m = parent.src.sync(k as u16, false, origin, 0);
+        rep.ev("host_call");
+        rep.ev("long_history_sync");
+        if let Err(p) = node.call(0, Call::EventRx(m.encode(), time_from_units(rx))) {
+            rep.violation(
+                &format!("C03|panic|{}|{}", p.site(), p.class()),
+                &format!("Sync number {k} of a long slave history ({regime}) panicked: {}", p.describe()),
+                replay,
+            );
+            return;
+        }
+        if k % 4 == 0 {
+            // keep the parent qualified
+            let a = parent.next_announce();
+            if node.call(0, Call::GeneralRx(a.encode())).is_err() {
+                return;
+            }
+        }
+    }
+}
+
 pub fn run(rep: &mut Report, tier: &str, seed: u64, shard: (u32, u32), replay: Option<&str>) {
     rep.rule = "random instance configurations (1-3 ports, E2E/P2P, path trace, slave-only, master-only, acceptable master lists, Kalman/Basic/recording filter, real or scripted TLV forwarder, failing clocks, clock near 0 / 2^48 s / 2^62 ns) driven into protocol states and then through adaptive hostile host calls (reference-codec frames with boundary-lattice fields from the parent / other masters / own identity, TLVs sized around every margin, PATH_TRACE 0..240 entries, truncations, bit flips, random bytes <= 2048, timers, transmit timestamps, BMCA, run-time setting changes) in a consistent and an adversarial timestamp regime; distinct = (port state x call kind x message type) cells hit; every host call counted".into();
     rep.require(&["host_call", "state_Listening", "state_Master", "state_Slave", "state_Passive", "state_Faulty"]);
@@ -131,5 +189,8 @@ pub fn run(rep: &mut Report, tier: &str, seed: u64, shard: (u32, u32), replay: O
         }
         run_case(rep, &case);
         rep.evaluations += 1;
+        if tier != "miri" && i % 25 == 0 {
+            long_history(rep, rng.gen(), 400);
+        }
     }
 }
